@@ -111,6 +111,17 @@ type Queue struct {
 	workqueue.RateLimitingInterface
 	Ops      []QueueOp
 	Requeues int
+	Items    []interface{}
+}
+
+// Get pops the next pending item (quit = true when nothing is pending).
+func (q *Queue) Get() (interface{}, bool) {
+	if len(q.Items) == 0 {
+		return nil, true
+	}
+	it := q.Items[0]
+	q.Items = q.Items[1:]
+	return it, false
 }
 
 func (q *Queue) Add(item interface{}) { q.Ops = append(q.Ops, QueueOp{Op: "add", Key: item.(string)}) }
